@@ -80,6 +80,7 @@ fn event_name(e: &EventKind) -> &'static str {
         EventKind::UnmapNamed { .. } => "unmap",
         EventKind::ForeignTracer { .. } => "foreign_tracer",
         EventKind::MapAnon { .. } => "map_anon",
+        EventKind::ContinueProcess => "sigcont_from_outside",
     }
 }
 
